@@ -52,7 +52,7 @@ fn reject_alphabet(r: &TypeRow) -> Vec<String> {
             pick.push(c);
         }
     }
-    pick.extend(['-', ' ', 'A', '\n', '\r', '\t']);
+    pick.extend(['-', ' ', 'A', '\n', '\r', '\t', '\u{0}', '\u{a0}', '\u{130}', '\u{131}']);
     pick.dedup();
     pick.into_iter().map(|c| c.to_string()).collect()
 }
@@ -109,7 +109,7 @@ impl Prop for C18 {
         "exploration"
     }
     fn rule(&self, _t: Tier) -> String {
-        "per typed value family: (1) every value of the family (enumerations exhaustively; records as the full product of small token / size menus incl. 0 and usize::MAX; VCS locations x branch x subpath) is printed and parsed back: parse(print(v)) == v; (2) every canonical text of the row: print(parse(s)) == s; (3) keyword types: every string over (up to 8 keyword letters + '-', ' ', 'A') up to length 4 (thorough 5) and the complete edit-distance-1 neighbourhood (deletions, substitutions, insertions, single case flips) of every keyword must be rejected unless it is a keyword (case variants are accepted only where documented); the same reject sets are replayed with the string in the keyword's place inside composite values (changes-file and package-list entries, the Priority / Multi-Arch / Types / By-Hash fields of the lossy typed paragraphs, the operator of a relation), whose own readers must reject it; all cases distinct per row; non-trivial = all".into()
+        "per typed value family: (1) every value of the family (enumerations exhaustively; records as the full product of small token / size menus incl. 0 and usize::MAX; VCS locations x branch x subpath) is printed and parsed back: parse(print(v)) == v; (2) every canonical text of the row: print(parse(s)) == s; (3) keyword types: every string over (up to 8 keyword letters + '-', ' ', 'A', line break, CR, tab, NUL, no-break space, dotted capital I, dotless i) up to length 4 (thorough 5) and the complete edit-distance-1 neighbourhood (deletions, substitutions, insertions, single case flips) of every keyword must be rejected unless it is a keyword (case variants are accepted only where documented); the same reject sets are replayed with the string in the keyword's place inside composite values (changes-file and package-list entries, the Priority / Multi-Arch / Types / By-Hash fields of the lossy typed paragraphs, the operator of a relation), whose own readers must reject it; all cases distinct per row; non-trivial = all".into()
     }
     fn bounds(&self, t: Tier) -> Value {
         let rs = rows();
